@@ -1,4 +1,5 @@
 import Cpppo.Proofs.History
+import Cpppo.Proofs.Natural
 
 /-!
 # C18 — History replay delivers every logged record exactly once, in order, on time
@@ -101,6 +102,118 @@ theorem complete_all_delivered
 
 end
 
+section
+variable (H : History) (o : Opts) (hfix : o.fix = .new) (hwf : WF H)
+  (a : LoadArgs) (as : List LoadArgs) (hmono : ClockMono (a :: as))
+include hfix hwf hmono
+
+/-- **Final values.**  When the replay is COMPLETE the queue of pending records is empty and the
+register map holds, for every register, the last value logged for it from the start file on, stamped
+with the time of that record (the driver and the code print it through `realtime`, which `advance`
+inverts: `advance_realtime`); a register never logged is absent. -/
+theorem final_values (hst : (lastState (runLoads H o (a :: as) {}) {}).st = .complete) :
+    (lastState (runLoads H o (a :: as) {}) {}).future = [] ∧
+    ∀ r, lookupReg r (lastState (runLoads H o (a :: as) {}) {}).values =
+      lastLogged r (deliverable (spanLines H a.clock)) := by
+  obtain ⟨hp, hg⟩ := runLoads_pending H o (a :: as) {} (by intro h; simp at h)
+  have hfut := hg hst
+  refine ⟨hfut, fun r => ?_⟩
+  have hall := complete_all_delivered H o hfix hwf a as hmono (Or.inr hst)
+  unfold delivered at hall
+  rw [hall] at hp
+  have : pending (lastState (runLoads H o (a :: as) {}) {}) =
+      (lastState (runLoads H o (a :: as) {}) {}).values := by simp [pending, hfut]
+  rw [this] at hp
+  rw [hp, lookupReg_foldl_absorb]
+  cases lastLogged r (deliverable (spanLines H a.clock)) <;> rfl
+
+/-- **Comment lines and lines with a damaged timestamp are skipped without losing the records around
+them**: with calls that carry no `limit`/`upcoming`, the history and the history without those lines
+deliver the same events by the same calls.  (Records with an unusable payload are covered by every
+theorem above: `deliverable` leaves them out and everything else is still delivered.) -/
+theorem junk_lines_skipped (hall : ∀ b ∈ a :: as, b.limit = none ∧ b.upcoming = none) (i : Nat)
+    (hi : i < (a :: as).length) :
+    deliveredBy (runLoads (H.map stripLines) o (a :: as) {}) (i + 1) =
+      deliveredBy (runLoads H o (a :: as) {}) (i + 1) := by
+  obtain ⟨b, hb⟩ : ∃ b, (a :: as)[i]? = some b := ⟨(a :: as)[i], by simp [hi]⟩
+  obtain ⟨hl, hu⟩ := hall b (List.mem_of_getElem? hb)
+  rw [replay_on_time H o hfix hwf a as hmono i b hb hl hu,
+    replay_on_time (H.map stripLines) o hfix hwf.strip a as hmono i b hb hl hu,
+    spanLines_strip a.clock H hwf.first_ok, deliverable_strip]
+
+end
+
+/-- **Copies.**  With compressed copies beside (or instead of) the plain files — the same lines under
+names that sort directly after the original — the replay is that of the history without copies, to
+which the theorems above apply.  (`withCopies` violates `WF` by itself: copies share a first timestamp.) -/
+theorem copies_irrelevant (fs : List (File × Nat)) (o : Opts) (hfix : o.fix = .new)
+    (hwf : WF (fs.map (·.1))) (a : LoadArgs) (as : List LoadArgs) (hmono : ClockMono (a :: as)) :
+    runLoads (withCopies fs) o (a :: as) {} = runLoads (fs.map (·.1)) o (a :: as) {} :=
+  runLoads_copies fs o (a :: as) {} (delivered_exactly_once_partial _ o hfix hwf a as hmono).2.1
+
+/-! ### Which file is opened -/
+
+/-- the initial open (`after=False`): the newest file whose first record is not later than the
+target, else the oldest file -/
+theorem select_before_spec (c : Time) (H : History) (hok : ∀ f ∈ H, FirstOk f) :
+    (H = [] → scan c false false H none = none) ∧
+    ∀ pre f post, startSplit c H = some (pre, f, post) →
+      scan c false false H none = some (openedOf f) ∧ H = pre ++ f :: post ∧
+      (∀ g ∈ pre, c < firstTs0 g) ∧ (firstTs0 f ≤ c ∨ post = []) := by
+  refine ⟨by rintro rfl; rfl, ?_⟩
+  intro pre f post hs
+  have := scan_before c H none hok
+  rw [hs] at this
+  exact ⟨this, startSplit_spec hs⟩
+
+/-- a later open (`after=True`): of the files visited newest first, the last one before the first
+file whose first timestamp is not after (`strict`: not strictly after) the target -/
+theorem select_after_spec (target : Time) (strict : Bool) (newer : History) (g f : File) (older : History)
+    (hnewer : ∀ h ∈ newer ++ [g], FirstOk h ∧ afterOk strict target (firstTs0 h) = true)
+    (hf : FirstOk f) (hstop : afterOk strict target (firstTs0 f) = false) :
+    scan target true strict (newer ++ g :: f :: older) none = some (openedOf g) := by
+  obtain ⟨pf, rf, hfr, _⟩ := hf.ok
+  obtain ⟨hg, hgok⟩ := hnewer g (by simp)
+  obtain ⟨pg, rg, hgr, _⟩ := hg.ok
+  have : newer ++ g :: f :: older = (newer ++ [g]) ++ f :: older := by simp
+  rw [this, scan_after_stop target strict (newer ++ [g]) f older none
+    (by intro t p r h; rw [hfr] at h; simp only [First.ok.injEq] at h; rw [← h.1]; exact hstop)
+    (by rw [hfr]; simp), openedOf_eq hgr]
+  refine scan_after_all target strict newer g none ?_ hgr hgok
+  intro h hh
+  obtain ⟨h1, h2⟩ := hnewer h (by simp [hh])
+  obtain ⟨p, r, hr, _⟩ := h1.ok
+  exact ⟨_, _, _, hr, h2⟩
+
+/-! ### The order in which files are visited (`misc.natural`) and the clock -/
+
+/-- "does not sort after" by the `natural` key is a total preorder on names -/
+theorem natural_sort_total :
+    (∀ a b, naturalLe a b = true ∨ naturalLe b a = true) ∧
+    (∀ a b c, naturalLe a b = true → naturalLe b c = true → naturalLe a c = true) :=
+  ⟨natural_totalPre.total, natural_totalPre.trans⟩
+
+/-- the visiting order is a permutation of the directory listing, sorted by the `natural` key -/
+theorem natural_sort_sorted (names : List (List Nat)) :
+    (sortByLt naturalLt names).Perm names ∧
+    (sortByLt naturalLt names).Pairwise (fun a b => naturalLt b a = false) :=
+  ⟨sortByLt_perm _ _, sortByLt_sorted naturalLt natural_totalPre names⟩
+
+/-- suffix as a list of code points -/
+def sfx (s : String) : List Nat := s.toList.map Char.toNat
+
+/-- rotation names come newest first: `''`, `.0`, `.1`, `.1.bz2`, `.1.gz`, `.2`, `.10` -/
+theorem rotation_names_order :
+    sortByLt naturalLt [sfx ".10", sfx ".1.gz", sfx "", sfx ".2", sfx ".1", sfx ".0", sfx ".1.bz2"]
+      = [sfx "", sfx ".0", sfx ".1", sfx ".1.bz2", sfx ".1.gz", sfx ".2", sfx ".10"] := by decide +kernel
+
+/-- the historical clock `historical + (now - basis) * factor` does not go back, and `realtime`
+(the stamp put on replayed values) is its inverse -/
+theorem clock_monotone_and_inverse (hist : Int) (fd : Nat) (hfd : 0 < fd) :
+    (∀ w w', w ≤ w' → advance hist fd w ≤ advance hist fd w') ∧
+    (∀ ts, advance hist fd (realtime hist fd ts) = ts) :=
+  ⟨advance_mono hist fd, advance_realtime hist fd hfd⟩
+
 /-! ### Non-vacuity -/
 
 def R (t : Time) (v : Int) (reg : Nat := 40001) : Line := .recd t (.regs [(reg, v)])
@@ -125,6 +238,17 @@ example : delivered (runLoads H0 { la := 5 } sched0 {}) = deliverable (spanLines
     (lastState (runLoads H0 { la := 5 } sched0 {}) {}).st = .complete := by decide +kernel
 
 example : (deliverable (spanLines H0 1005)).length = 7 := by decide +kernel
+
+/-- the final register map of that replay -/
+example : (lastState (runLoads H0 { la := 5 } sched0 {}) {}).values
+    = [(40001, 1040, 6), (40002, 1040, 7)] := by decide +kernel
+
+/-- `H0` with a gz copy of its middle file and both a gz and a bz2 copy of its oldest file -/
+example : withCopies [(H0[0], 0), (H0[1], 1), (H0[2], 2)] ≠ H0 ∧
+    runLoads (withCopies [(H0[0], 0), (H0[1], 1), (H0[2], 2)]) { la := 5 } sched0 {}
+      = runLoads H0 { la := 5 } sched0 {} := by decide +kernel
+
+example : stripLines H0[1] ≠ H0[1] := by decide
 
 /-! ### The code before the repairs, and what remains open -/
 
